@@ -5,6 +5,7 @@
 package c17
 
 import (
+	"encoding/json"
 	"bytes"
 	"fmt"
 	"sort"
@@ -39,7 +40,8 @@ func init() {
 			}
 			return []fw.ChildSpec{{Name: "timed", Mode: "timed", Shards: 4, Timeout: 8 * time.Minute}}
 		},
-		Run: run,
+		Run:    run,
+		Replay: replay,
 	})
 }
 
@@ -278,4 +280,17 @@ func execute(c *fw.Ctx, ru *Run) {
 	c.Case(fw.Hash(ru.Rate, ru.Burst, ru.TotalRate, ru.TotalBurst, ru.LatencyMs, ru.BufSize, ru.Conns), reads >= 3, func() any {
 		return map[string]any{"run": ru, "reads": reads}
 	})
+}
+
+
+func replay(c *fw.Ctx, raw json.RawMessage) {
+	var w struct {
+		Run *Run `json:"run"`
+	}
+	if err := json.Unmarshal(raw, &w); err != nil || w.Run == nil {
+		fmt.Println("replay: cannot decode run:", err)
+		return
+	}
+	hmods.Quiet(c.OutDir + "/caddyhome")
+	execute(c, w.Run)
 }
